@@ -290,4 +290,95 @@ theorem runFrom_eq (o : Oracle) (c : Cfg) (strip : String → String) (ev : Nat 
     simp only [runFrom, List.map_cons, h1]
     rw [runFrom_eq o c strip ev qs (n + 1) _ (fun q' h => hw q' (List.mem_cons_of_mem _ h)) h2]
 
+/-! ### reloads (Extension mux) -/
+
+/-- The published instance's cache, if it has one, satisfies the invariant *for its own configuration*. -/
+def InstInv (o : Oracle) (strip : String → String) (i : Inst) : Prop :=
+  ∀ cache, i.cache = some cache → CacheInv o i.cfg strip cache
+
+theorem instInv_newMux (o : Oracle) (strip : String → String) : InstInv o strip newMux := by
+  intro cache h; cases h
+
+/-- `reload` re-establishes the invariant whatever the previous instance was: the cache is fresh. -/
+theorem instInv_reload (o : Oracle) (strip : String → String) (g : GenSpec) : InstInv o strip (reload g) := by
+  intro cache h
+  simp only [reload] at h
+  split at h
+  · simp only [Option.some.injEq] at h; subst h; exact cacheInv_nil o g.cfg strip
+  · cases h
+
+/-- One request on the published instance: cache-less answer, configuration unchanged, invariant kept. -/
+theorem instSearch_step (o : Oracle) (strip : String → String) (ev : Key → Bool) (i : Inst) (q : Req)
+    (hq : WF strip q) (inv : InstInv o strip i) :
+    (i.search o ev q).1 = search o i.cfg q ∧ (i.search o ev q).2.cfg = i.cfg ∧
+      InstInv o strip (i.search o ev q).2 := by
+  obtain ⟨cfg, cache⟩ := i
+  cases cache with
+  | none => exact ⟨searchMiss_fst o cfg q, rfl, inv⟩
+  | some cache =>
+    obtain ⟨h1, h2⟩ := searchCached_step o cfg strip ev cache q hq (inv cache rfl)
+    refine ⟨h1, rfl, ?_⟩
+    intro cache' hc
+    simp only [Inst.search, Option.some.injEq] at hc
+    subst hc; exact h2
+
+/-- All requests of a history are well-formed. -/
+def OpsWF (strip : String → String) (ops : List Op) : Prop := ∀ q, Op.request q ∈ ops → WF strip q
+
+theorem runOps_eq (o : Oracle) (strip : String → String) (ev : Nat → Key → Bool) :
+    ∀ (ops : List Op) (n : Nat) (i : Inst), OpsWF strip ops → InstInv o strip i →
+      runOps o ev n i ops = refOps o i.cfg ops
+  | [], _, _, _, _ => rfl
+  | .reload g :: ops, n, i, hw, _ => by
+    simp only [runOps, refOps, reqCfgs]
+    exact runOps_eq o strip ev ops n (reload g) (fun q h => hw q (List.mem_cons_of_mem _ h))
+      (instInv_reload o strip g)
+  | .request q :: ops, n, i, hw, inv => by
+    obtain ⟨h1, h2, h3⟩ := instSearch_step o strip (ev n) i q (hw q List.mem_cons_self) inv
+    simp only [runOps, refOps, reqCfgs, List.map_cons, h1]
+    rw [runOps_eq o strip ev ops (n + 1) _ (fun q' h => hw q' (List.mem_cons_of_mem _ h)) h3, h2]
+    rfl
+
+/-- configuration current after a history -/
+def cfgAfter : Cfg → List Op → Cfg
+  | c, [] => c
+  | _, .reload g :: ops => cfgAfter g.cfg ops
+  | c, .request _ :: ops => cfgAfter c ops
+
+theorem reqCfgs_append (c : Cfg) (pre post : List Op) :
+    reqCfgs c (pre ++ post) = reqCfgs c pre ++ reqCfgs (cfgAfter c pre) post := by
+  induction pre generalizing c with
+  | nil => rfl
+  | cons op pre ih =>
+    cases op with
+    | request q => simp [reqCfgs, cfgAfter, ih]
+    | reload g => simp [reqCfgs, cfgAfter, ih]
+
+theorem length_runOps (o : Oracle) (ev : Nat → Key → Bool) :
+    ∀ (ops : List Op) (n : Nat) (i : Inst), (runOps o ev n i ops).length = (reqCfgs i.cfg ops).length
+  | [], _, _ => rfl
+  | .reload g :: ops, n, i => by simp only [runOps, reqCfgs]; exact length_runOps o ev ops n (reload g)
+  | .request q :: ops, n, i => by
+    simp only [runOps, reqCfgs, List.length_cons]
+    rw [length_runOps o ev ops (n + 1) _]
+    obtain ⟨cfg, cache⟩ := i
+    cases cache <;> rfl
+
 end EgVerif.MuxCache
+
+/-! ### shared witness history (used by `Props/C12.lean` and `Props/C05.lean`)
+
+Filter 0 blocks `10.0.0.1`. Generation 1: one rule, no filter; generation 2: the same rules and cache
+size plus the server-level filter 0. Both keys (`/x` → p1, `/nothing` → 404) are cached by generation 1. -/
+namespace EgVerif.C12w
+open EgVerif.Mux EgVerif.MuxCache
+
+def oR : Oracle := ⟨fun _ _ => false, fun i ip => !(i == 0 && ip == "10.0.0.1")⟩
+def cfgR1 : Cfg := { rules := [{ paths := [{ path := "/x", backend := "p1" }] }] }
+def cfgR2 : Cfg := { cfgR1 with ipFilter := some 0 }
+def qR (ip : String) : Req := ⟨"a", "a", "GET", "/x", [], ip⟩
+def qN (ip : String) : Req := ⟨"a", "a", "GET", "/nothing", [], ip⟩
+def histR : List Op := [.reload ⟨cfgR1, true⟩, .request (qR "10.0.0.2"), .request (qN "10.0.0.2"),
+  .reload ⟨cfgR2, true⟩, .request (qR "10.0.0.1"), .request (qN "10.0.0.1")]
+
+end EgVerif.C12w
